@@ -46,12 +46,16 @@ fn codecs_json(m: &BTreeMap<String, String>) -> Option<String> {
     Some(inner)
 }
 
-fn open(m: &BTreeMap<String, String>) -> Result<ArrCtx, String> {
+fn meta_json(m: &BTreeMap<String, String>) -> Result<String, String> {
     let ssh = pnl(&m["ssh"]);
     let shape = ssh.iter().map(|x| x.to_string()).collect::<Vec<_>>().join(",");
-    let meta = format!(
+    Ok(format!(
         "{{\"zarr_format\":3,\"node_type\":\"array\",\"shape\":[{}],\"data_type\":\"{}\",\"chunk_grid\":{{\"name\":\"regular\",\"configuration\":{{\"chunk_shape\":[{}]}}}},\"chunk_key_encoding\":{{\"name\":\"default\",\"configuration\":{{\"separator\":\"/\"}}}},\"fill_value\":{},\"codecs\":{}}}",
-        shape, m["dtype"], shape, String::from_utf8(unhex(&m["fillj"])).unwrap(), codecs_json(m).ok_or("codecs")?);
+        shape, m["dtype"], shape, String::from_utf8(unhex(&m["fillj"])).unwrap(), codecs_json(m).ok_or("codecs")?))
+}
+
+fn open(m: &BTreeMap<String, String>) -> Result<ArrCtx, String> {
+    let meta = meta_json(m)?;
     let mut mm = BTreeMap::new();
     mm.insert("store".to_string(), "memory".to_string());
     mm.insert("path".to_string(), "/a".to_string());
@@ -60,9 +64,40 @@ fn open(m: &BTreeMap<String, String>) -> Result<ArrCtx, String> {
     open_ctx(&mm)
 }
 
+/// `route=async`: `Array::async_partial_decoder` (`AsyncShardingPartialDecoder`) over an async store holding the same raw bytes
+#[cfg(not(feature = "zasync"))]
+fn exec_async(_m: &BTreeMap<String, String>) -> String { "skip".into() }
+#[cfg(feature = "zasync")]
+fn exec_async(m: &BTreeMap<String, String>) -> String {
+    use std::sync::Arc;
+    use zarrs::array::{codec::CodecOptions, Array};
+    use zarrs::storage::store::MemoryStore;
+    use zarrs::storage::WritableStorageTraits;
+    let es: Option<usize> = Some(m["es"].parse().unwrap());
+    let meta = match meta_json(m) { Ok(s) => s, Err(_) => return "err-open".into() };
+    let inner = Arc::new(MemoryStore::new());
+    if inner.set(&meta_key("/a"), meta.into_bytes().into()).is_err() { return "err-open".into(); }
+    let astore: zarrs::storage::AsyncReadableWritableListableStorage = Arc::new(crate::c07::AsyncMem(inner.clone()));
+    let rt = tokio::runtime::Builder::new_current_thread().enable_all().build().unwrap();
+    let c = vec![0u64; pnl(&m["ssh"]).len()];
+    let rs: Vec<_> = m["rs"].split('|').map(parse_subset).collect();
+    let raw = m["raw"].clone();
+    rt.block_on(async {
+        let a = match Array::async_open(astore.clone(), "/a").await { Ok(a) => a, Err(_) => return "err-open".to_string() };
+        if raw != "absent" { if inner.set(&a.chunk_key(&c), unhex(&raw).into()).is_err() { return "err-set".into(); } }
+        let o = CodecOptions::default();
+        let pd = match a.async_partial_decoder_opt(&c, &o).await { Ok(p) => p, Err(e) => { if std::env::var("VERIF_ERR_MSG").is_ok() { eprintln!("ERR: {}", e); } return "err".to_string() } };
+        match pd.partial_decode(&rs, &o).await {
+            Ok(parts) => format!("val {}", parts.into_iter().map(|b| show_elems(&from_array_bytes(es, b))).collect::<Vec<_>>().join("|")),
+            Err(e) => { if std::env::var("VERIF_ERR_MSG").is_ok() { eprintln!("ERR: {}", e); } "err".into() }
+        }
+    })
+}
+
 pub fn exec(line: &str) -> String {
     let (_, m) = parse_line(line);
     guarded(|| {
+        if m.get("route").map(|s| s == "async").unwrap_or(false) { return exec_async(&m); }
         use zarrs::storage::WritableStorageTraits;
         let ctx = match open(&m) { Ok(c) => c, Err(e) => { if std::env::var("VERIF_ERR_MSG").is_ok() { eprintln!("ERR: {}", e); } return "err-open".into() } };
         let a = ctx.array.clone();
@@ -246,9 +281,23 @@ pub fn generate(tier: &str, seed: u64) -> Vec<String> {
                         let (s, nn) = rng.pick(&boxes).clone();
                         out.push(format!("c02s pd {} corrupt=1 raw={} rs={}+{}", base, hex(&v), nl(&s), nl(&nn)));
                     }
+                    // index at the start, the last byte of the value removed (both routes: the synchronous decoder reads
+                    // the bytes a region needs, the asynchronous one whole inner chunks)
+                    if locs[0] == "start" && rawv.len() > isz {
+                        let v = rawv[..rawv.len() - 1].to_vec();
+                        let some: Vec<(Vec<u64>, Vec<u64>)> = if boxes.len() <= 36 { boxes.clone() } else { (0..16).map(|_| rng.pick(&boxes).clone()).collect() };
+                        for (s, nn) in &some { out.push(format!("c02s pd {} corrupt=1 trunc=1 raw={} rs={}+{}", base, hex(&v), nl(s), nl(nn))); }
+                    }
                 }
             }
         }
     }
-    out
+    // the asynchronous twin (`route=async`) of about half of the request lines: same raw value, same regions
+    let mut all = Vec::with_capacity(out.len() * 3 / 2);
+    for (i, l) in out.into_iter().enumerate() {
+        let twin = if i % 2 == 0 || l.contains(" trunc=1 ") { Some(l.replacen("c02s pd ", "c02s pd route=async ", 1)) } else { None };
+        all.push(l);
+        if let Some(t) = twin { all.push(t); }
+    }
+    all
 }
